@@ -18,6 +18,9 @@ CLAIMED = {
  "C17": ("Hypothesis-generated values/uncertainties (carry cases constructed) and fitted problems; printed strings parsed back and judged with exact Decimal arithmetic",
          "Generated-input search with validity predicates on the *printed text*: displayed uncertainty == correctly rounded true uncertainty at n significant digits; |displayed value - true| <= half a unit of the uncertainty's last displayed digit; value shown down to that digit when |v|>=u; fixed marker; plain == LaTeX; report()/file preface/result dict of fitted xy/indexed/hist problems (fixed, constrained, asymmetric, changed-after-fit) list exactly the names/values/uncertainties/correlations/gof/ndf/probability the fit holds, each within half a unit of its own last digit.",
          "Trusts python's decimal module for reference rounding; held state is read before and after report() because MINOS inside report may move the optimum within minimizer tolerance; one open known finding (KF-C17-1: compact table double rounding, <=0.55 unit) excluded by bug model.", "DESIGN.md §4 C17"),
+ "C13": ("Hypothesis-generated edges x density families x parameters x bin_evaluation x density flag vs closed-form integrals and closed-form (Euler-Maclaurin) quadrature errors",
+         "Generated-input search with an analytic oracle: bin contents read through HistParametricModel.data and HistFit.model (incl. re-reads after parameter change, rebin, data replacement with same shape/different edges) are compared with F(b)-F(a); for polynomial densities the exact error of midpoint/trapezoid/Simpson is known in closed form, which pins exactness (degree 1/1/3) and convergence order at rounding precision without re-using the implementation's node/weight formulas; other families use the textbook error bounds with analytic derivative maxima; scipy-quad within 1e-7.",
+         "Trusts the closed-form antiderivatives in kverif/props/c13.py; edges with widths >= 1e-3, |x| <= 10; N counted by the harness.", "DESIGN.md §4 C13"),
 }
 NOT_YET = "check not built yet in this session (work in progress; see DESIGN.md §10 build order)"
 
